@@ -8,7 +8,7 @@ from core import BaseProp, Verdict
 from proto import T
 from props.c02 import merge_words
 
-RULE = ('random tables x texts over operators, parentheses, known names, unknown words, words with invalid characters and blank '
+RULE = ('random tables x texts (half of them valid grammar-derived expressions with one or two token-level edits: delete, insert, duplicate, swap, replace) over operators, parentheses, known names, unknown words, words with invalid characters and blank '
         'runs, under every combination of strict/simple/validate; Spec on the real code: (a) only ExpressionError / '
         'ExpressionParseError escape from parse, validate never raises and dedup / is_equivalent / contains / the key listings '
         'raise nothing else either; (b) a token sequence that the reference grammar does not derive (and that is not a derivable '
@@ -45,6 +45,15 @@ class Prop(BaseProp):
         if r < 0.05:
             text = rng.choice(['', ' ', '\t\n'])
         return {'table': table, 'text': text, 'simple': rng.random() < 0.4, 'strict': rng.random() < 0.5, 'validate': rng.random() < 0.4}
+
+    def case_mutated(self, rng):
+        """a valid expression with one or two token-level edits: inputs next to the accept / reject boundary"""
+        table = rng.choice([[], [['gpl', [], False], ['cpe', ['cp e'], True], ['mit', [], False]]])
+        keys = ['gpl', 'mit', 'cpe', 'foo', 'zz top']
+        t = gen.gen_tree(rng, keys, depth=rng.randint(1, 3), maxar=3, with_p=0.3, flags=False)
+        toks = gen.mutate_tokens(rng, gen.tree_tokens(rng, t), ['gpl', 'mit', 'cpe', 'foo', 'and', 'or', 'with', '(', ')', 'a$'])
+        text = ' '.join(toks) if rng.random() < 0.8 else gen.blank_run(rng).join(toks)
+        return {'table': table, 'text': text, 'simple': rng.random() < 0.3, 'strict': rng.random() < 0.3, 'validate': rng.random() < 0.3}
 
     def eval_case(self, drv, case, full_api=True):
         table, text = case['table'], case['text']
@@ -136,8 +145,8 @@ class Prop(BaseProp):
         if index == 0:
             for c in CORPUS:
                 self.record(self.eval_case(drv, c))
-        for _ in range(n):
-            self.record(self.eval_case(drv, self.case_random(rng)))
+        for i in range(n):
+            self.record(self.eval_case(drv, self.case_mutated(rng) if i % 2 else self.case_random(rng)))
         self.exhaustive(drv, index, nworkers, 5 if tier == 'thorough' else 4)
         return self.res
 
